@@ -1,6 +1,7 @@
 import EmmyVerif.Model.Text
 import EmmyVerif.Model.Diag
 import EmmyVerif.Model.DiagConfig
+import EmmyVerif.Model.DiagSyntax
 import EmmyVerif.Drv.Util
 /-! Driver ops of the `Diag` family (protocol family `diag`).
 
@@ -14,6 +15,8 @@ import EmmyVerif.Drv.Util
 * `diag.config <codes> <wsEnabled> <wsDisabled> <has ---@meta 0|1> <fileEnabled> <fileDisabled> <level> <overrides> <enable 0|1> <kind m|l|s|o>`
   → `ok none` (the file reports nothing at all) or `ok <per code: 0 = not enabled, 1..4 = severity>`;
   overrides: `-` or `,`-separated `code:severity`; defaults come from the readable model (`defaultOn`, `defaultSeverity`)
+* `diag.syntax <text-hex> <errs>` → `ok <kind>_<sl>_<sc>_<el>_<ec>_<msg>;…`: the diagnostics of the parse-error loop of
+  `SyntaxErrorChecker` (de-duplicated, ungated); errs: `-` or `;`-separated `kind_s_e_msgid` (kind 0 = SyntaxError)
 * `diag.global <declared 0|1> <inGlobals 0|1> <matchesRegex 0|1>` → `ok 0|1` (reported as undefined global)
 -/
 namespace Drv.Diag
@@ -99,6 +102,15 @@ def handle (op : String) (args : List String) : Option String :=
     pure (match fileReports (enable == "1") kind per with
       | none => "ok none"
       | some per => s!"ok {Drv.joinWith "," per}")
+  | "syntax", [h, errs] => do
+    let t ← Drv.unhex h
+    let errs ← (splitNonEmpty errs ";").mapM fun x =>
+      match x.splitOn "_" with
+      | [k, a, b, m] => do pure (ParseErr.mk (← k.toNat?) ((← a.toNat?), (← b.toNat?)) (← m.toNat?))
+      | _ => none
+    let ds := syntaxDiags t 0 1 (fun _ _ => true) errs
+    let out := ds.map fun d => s!"{d.code}_{d.range.1.1}_{d.range.1.2}_{d.range.2.1}_{d.range.2.2}_{d.msg}"
+    pure s!"ok {Drv.joinWith ";" out}"
   | "global", [d, g, r] => pure s!"ok {bit (globalReported (d == "1") (g == "1") (r == "1"))}"
   | "covers", [a, b, s, e] => do
     let a ← a.toNat?; let b ← b.toNat?; let s ← s.toNat?; let e ← e.toNat?
